@@ -45,12 +45,13 @@ def showAErr : AErr → String
   | .tooLarge => "toolarge"
   | .scan e => showRErr e
 
+/-- obs of `read`: the committed transactions in file order, each with exactly its operations:
+    `ok <n> <txid=rec;rec|txid=…>` (`-` if none) -/
 def showTxs (txs : List Tx) : String :=
-  let ids := if txs.isEmpty then "-" else ",".intercalate (txs.map fun t => toString t.txid)
-  s!"ok {txs.length} {ids}"
-
-def detailTxs (txs : List Tx) : String :=
-  " ".intercalate (txs.map fun t => toString t.txid ++ "=" ++ ";".intercalate (t.ops.map showRec))
+  let body := if txs.isEmpty then "-" else
+    "|".intercalate (txs.map fun t => toString t.txid ++ "=" ++ ";".intercalate (t.ops.map showRec))
+  -- `/` separates alternatives in a spec field: records are rendered with `~` here
+  s!"ok {txs.length} {body.replace "/" "~"}"
 
 def maxTxid (txs : List Tx) : Nat := txs.foldl (fun a t => max a t.txid) 0
 
@@ -91,6 +92,7 @@ def appendAll (cfg : WalFrame.Cfg) (h : Handle) : List Rec → Handle × Option 
 
 /-- one operation on one side; returns the new side and the output line -/
 def run (cfg : WalFrame.Cfg) (ideal : Bool) (sd : Side) (ws : List String) : Side × String :=
+  if (ws == ["wopen"] || ws == ["eopen"]) && (sd.handle.isSome || sd.eng.isSome) then (sd, "bad-op") else
   match ws with
   | ["wopen"] =>
     let h := walOpen sd.file
@@ -113,7 +115,7 @@ def run (cfg : WalFrame.Cfg) (ideal : Bool) (sd : Side) (ws : List String) : Sid
       (sd, showTxs (specTxs (completeFrames cfg.codec cfg.maxLen sd.file).1))
     else
       match recover cfg sd.file with
-      | .ok txs => (sd, if txs.isEmpty then showTxs txs else showTxs txs ++ " | " ++ detailTxs txs)
+      | .ok txs => (sd, showTxs txs)
       | .error e => (sd, "err " ++ showOErr e)
   | ["wlen"] => (sd, s!"ok | {sd.file.length}:" ++ hexOfBytes (beBytes 4 (crc32 sd.file)))
   | ["eopen"] =>
@@ -126,6 +128,22 @@ def run (cfg : WalFrame.Cfg) (ideal : Bool) (sd : Side) (ws : List String) : Sid
         ({ sd with eng := some (max (maxTxid txs + 1) 1, false) }, "ok")
       else (sd, "err " ++ showOErr e)
   | ["eclose"] => ({ sd with eng := none }, "ok")
+  | ["eprops"] =>
+    -- property `k` of the internal nodes 0..5 as the open engine sees them: what the committed transactions of
+    -- the log (plus this session's commits, which are in the file as well) set, last write wins
+    if sd.eng.isNone then (sd, "err | noengine") else
+    let txs := if ideal then specTxs (completeFrames cfg.codec cfg.maxLen sd.file).1 else
+      match recover cfg sd.file with
+      | .ok t => t
+      | .error _ => []
+    let sets : List (Nat × PV) := txs.flatMap fun t => t.ops.filterMap fun r =>
+      match r with
+      | .setNodeProperty n k v => if k = [0x6b] then some (n, v) else none
+      | _ => none
+    let val (i : Nat) : String := match (sets.reverse.find? (·.1 = i)) with
+      | some (_, v) => showV v
+      | none => "-"
+    (sd, "ok " ++ "|".intercalate ((List.range 6).map val))
   | "ecommit" :: ext :: rest =>
     match sd.eng, ext.toNat? with
     | some (txid, tc), some ext =>
